@@ -850,7 +850,7 @@ def policy(repo, tier):
                 n_src += 1
                 definite = False
                 try:
-                    ok, why = nondet_contained(m, fnode, n, c or n.func.id)
+                    ok, why = nondet_contained(m, fnode, n, c or n.func.id, mods=mods)
                     if not ok and not (isinstance(n.func, ast.Name) and n.func.id in ("id", "hash")) and not c.startswith("secrets."):
                         # not contained at the call itself: follow the value through the package (interprocedural taint)
                         ok, why2, _v, definite = FL.taint_verdict(mods, index, rel, q, fnode, n)
@@ -904,9 +904,36 @@ def _evidently_numeric(e):
     return False
 
 
-def nondet_contained(m, fnode, call, name):
+def _helper_call_sites(mods, helper):
+    """Every use of the function name `helper` in the package: ([(module, enclosing function node, call node)], all_are_plain_calls).
+    Call sites are found by name (`helper(...)`, `x.helper(...)`): a superset of the real ones.  Any other mention of the name (passed
+    as a value, decorated, called at module / class level, re-exported) makes the second component False."""
+    sites, plain = [], True
+    for _rel, m2 in (mods or {}).items():
+        mentions = set()
+        for n in ast.walk(m2.tree):
+            if (isinstance(n, ast.Name) and n.id == helper) or (isinstance(n, ast.Attribute) and n.attr == helper):
+                mentions.add(id(n))
+            elif isinstance(n, ast.alias) and helper in (n.name, n.asname):
+                pass                                    # an import of the helper: its uses in that module are mentions of their own
+            elif isinstance(n, ast.Constant) and n.value == helper:
+                plain = False                           # getattr(..., "helper") / __all__
+        if not mentions:
+            continue
+        for _q2, f2 in functions_of(m2):
+            for n in own_nodes(f2):
+                if isinstance(n, ast.Call) and id(n.func) in mentions:
+                    sites.append((m2, f2, n))
+                    mentions.discard(id(n.func))
+        if mentions:
+            plain = False
+    return sites, plain
+
+
+def nondet_contained(m, fnode, call, name, mods=None, _depth=0):
     """A nondeterministic value is contained when it is used only (a) inside logger calls, (b) as an operand of
-    arithmetic whose result is again only used in logger calls, (c) id()/hash() as a membership key in a local set/dict."""
+    arithmetic whose result is again only used in logger calls, (c) id()/hash() as a membership key in a local set/dict
+    (followed through the return value of a helper to every call site of that helper)."""
     parents = {}
     for n in ast.walk(fnode):
         for ch in ast.iter_child_nodes(n):
@@ -990,6 +1017,18 @@ def nondet_contained(m, fnode, call, name):
                 return key_only(par, depth + 1)
             if isinstance(par, (ast.If, ast.While, ast.Assert)):
                 return True, "condition"
+            if isinstance(par, ast.Return) and par.value is node and mods is not None and _depth < 3 \
+                    and not isinstance(fnode, ast.Lambda) and not getattr(fnode, "decorator_list", None) \
+                    and not any(isinstance(x, (ast.Yield, ast.YieldFrom)) for x in own_nodes(fnode)):
+                # the identity is the return value of a helper: it stays a key when every call of the helper is used as one
+                sites, plain = _helper_call_sites(mods, fnode.name)
+                if not plain or not sites:
+                    return False, f"returned by {fnode.name}(), which is not only called directly"
+                for m2, f2, c2 in sites:
+                    ok_, why_ = nondet_contained(m2, f2, c2, name, mods=mods, _depth=_depth + 1)
+                    if not ok_:
+                        return False, f"returned by {fnode.name}(); in {f2.name}: {why_}"
+                return True, f"returned by {fnode.name}(), whose {len(sites)} call(s) are only compared / used as a key"
             tgt = None
             if isinstance(par, ast.Assign) and len(par.targets) == 1 and isinstance(par.targets[0], ast.Name) and par.value is node:
                 tgt = par.targets[0].id
